@@ -73,6 +73,9 @@ type pathCtx struct {
 	mockNow  value // frozen mock clock value (a Time structure) or nil
 
 	tickCount map[value]int
+	choices   map[string]int
+	roundMemo map[string]*Term
+	nameMemo  map[string]*Term
 	inconclusive []string
 }
 
@@ -80,7 +83,7 @@ func newPathCtx(job *Job, solver *Solver, prefix []Decision) *pathCtx {
 	return &pathCtx{
 		job: job, solver: solver, prefix: prefix,
 		inputSet: map[string]*Term{}, reach: map[string]bool{}, checked: map[string]int{},
-		tickCount: map[value]int{},
+		tickCount: map[value]int{}, choices: map[string]int{}, roundMemo: map[string]*Term{}, nameMemo: map[string]*Term{},
 	}
 }
 
@@ -104,12 +107,17 @@ func (p *pathCtx) name(t *Term) *Term {
 	if t.Size <= 8 || t.Sort == SBool {
 		return t
 	}
+	key := t.String()
+	if v, ok := p.nameMemo[key]; ok {
+		return v
+	}
 	pre := "i"
 	if t.Sort == SReal {
 		pre = "r"
 	}
 	v := p.freshVarB(pre, t.Sort, t.Lo, t.Hi)
 	p.solver.Assert(mk(SBool, "=", v, t))
+	p.nameMemo[key] = v
 	return v
 }
 
